@@ -5,7 +5,8 @@ From Coq Require Import List NArith ZArith Bool.
 From Dials Require Import Base.Outcome Base.Runes Reflect.Ty Transform.RType Transform.MAlias
   Transform.MFlatten Transform.MOthers Transform.Manglers Transform.Transformer
   Transform.WellFormed Transform.TransformerProofs Transform.AliasProofs Transform.ManglerProofs
-  Transform.EmptyProofs Transform.FlattenProofs.
+  Transform.EmptyProofs Transform.FlattenProofs Transform.FuelProofs Transform.CounterpartSpec
+  Transform.SpecProofs.
 Import ListNotations.
 
 (* ReverseTranslate's running offset against what TranslateType recorded, for
@@ -82,12 +83,53 @@ Proof.
   - now apply strcast_lossless_map.
 Qed.
 
-(* set <-> slice: non-set fields untouched, an unset slice is an unset set *)
-Theorem setslice_lossless_partial : forall sf f,
+(* set <-> slice: non-set fields untouched, an unset slice is an unset set, and
+   a non-nil slice becomes the set of exactly its elements, each once *)
+Theorem setslice_lossless : forall sf f,
   (forall v, is_set_ty (sf_ty sf) = false -> setslice_unmangle (Some sf) [(f, v)] = Ok v) /\
   (forall k n, sf_ty sf = TMap k empty_struct_ty n ->
-     setslice_unmangle (Some sf) [(f, (TSlice k [], VNil))] = Ok (zero_tv (sf_ty sf))).
-Proof. intros. split; intros; [now apply setslice_other | eapply setslice_empty; eassumption]. Qed.
+     setslice_unmangle (Some sf) [(f, (TSlice k [], VNil))] = Ok (zero_tv (sf_ty sf))) /\
+  (forall k n nm l, sf_ty sf = TMap k empty_struct_ty n ->
+     exists kvs, setslice_unmangle (Some sf) [(f, (TSlice k nm, VList l))] = Ok (sf_ty sf, VMap kvs) /\
+                 (forall x, In x (map fst kvs) <-> In x l) /\
+                 NoDup (map fst kvs) /\ Forall (fun kv => snd kv = VStruct []) kvs).
+Proof.
+  intros. split; [| split]; intros.
+  - now apply setslice_other.
+  - eapply setslice_empty; eassumption.
+  - eapply setslice_elements; eassumption.
+Qed.
+
+(* flatten's leaf order IS the order of the dialsfieldpath tags: the i-th
+   flattened field carries the path of the i-th leaf (depth first) and is named
+   by the encoding of the leaf's name components *)
+Theorem flatten_order : forall tag ne te f outs,
+  wf_sf f = true -> flatten_mangle tag ne te f = Ok outs ->
+  map fieldpath_of outs = map (join_s [comma]) (paths_ty [sf_name f] (sf_ty f)) /\
+  (under_is_struct (sf_ty f) = true ->
+   map sf_name outs = map (encode_by ne) (names_ty (if sf_anon f then [] else [sf_name f]) (sf_ty f))) /\
+  (under_is_struct (sf_ty f) = false -> map sf_name outs = [encode_by ne [sf_name f]]).
+Proof. exact flatten_order_l. Qed.
+
+(* enough fuel: above the nesting depth of the type the outcome of TranslateType
+   does not depend on the fuel (so Err out_of_fuel is never the result with
+   fuel_for t, unless a mangler itself returned that code) *)
+Theorem translate_fuel_enough : forall f ms fs nm, Forall depth_ok ms ->
+  fuel_for (TStruct fs nm) <= f ->
+  translate f ms (TStruct fs nm) = translate (fuel_for (TStruct fs nm)) ms (TStruct fs nm).
+Proof. exact translate_fuel_enough_l. Qed.
+
+(* the by-name specification (Transform/CounterpartSpec.v): for the chain
+   [flatten] and every pointerified type with scalar / pointer / map / slice
+   leaves, ANY filling of the translated fields reverses to exactly what the
+   specification computes by looking every leaf up under its flattened name *)
+Theorem flatten_chain_spec : forall fuel E tag te fs nm tt x filled,
+  wf_fields fs = true -> simple_fields fs = true ->
+  translate fuel [MFlatten tag 0%N te] (TStruct fs nm) = Ok (tt, x) ->
+  length filled = length (unpack_ty tt) ->
+  Some (reverse fuel E [MFlatten tag 0%N te] x (tt, VStruct filled)) =
+  counterpart_spec E [MFlatten tag 0%N te] (TStruct fs nm) tt filled.
+Proof. exact flatten_chain_spec_l. Qed.
 
 (* an all-unset translated value reverses to the all-unset original, for every
    chain accepted by chain_ok (every mangler except the text-unmarshaler one;
@@ -129,7 +171,10 @@ Print Assumptions flatten_lossless.
 Print Assumptions one_to_one_manglers.
 Print Assumptions tag_manglers_lossless.
 Print Assumptions strcast_lossless.
-Print Assumptions setslice_lossless_partial.
+Print Assumptions setslice_lossless.
+Print Assumptions flatten_order.
+Print Assumptions translate_fuel_enough.
+Print Assumptions flatten_chain_spec.
 Print Assumptions chain_empty.
 Print Assumptions translated_type_wf.
 Print Assumptions chain_lossless.
